@@ -513,3 +513,15 @@ Proof.
       * eapply frame_step; eauto.
       * rewrite (extends_reach m _ v X Hv); auto.
 Qed.
+
+(* process-wide objects (DEFAULT_TYPES; module globals, class attributes, default-argument objects): no operation of a
+   repaired configuration writes any cell of the module region, from ANY model state and store *)
+Lemma module_frame : forall c h m st i, writes_fixed c = true ->
+  snd (run c h (m, st)) (OMod, i) = st (OMod, i).
+Proof.
+  intros c h. induction h as [|p h IH]; intros m st i F; simpl; auto.
+  rewrite run_step_eq. rewrite IH by auto. apply exec_all_untouched. intros Hw.
+  pose proof (step_writes_ok c m p F) as W. unfold Wok in W. rewrite Forall_forall in W.
+  apply (W _ Hw).
+Qed.
+
